@@ -108,6 +108,8 @@ def check_project_spec(ctx, spec):
     got_layout = [None if m is None else type(m).__name__ for m in p.modules]
     if got_layout != layout:
         raise PropertyViolation("C01.positions", "module positions are %r, expected %r" % (got_layout, layout))
+    if len(repr(spec)) % 4 == 0 and build.failed_save_in_past(p, len(repr(spec))):
+        ctx.label("failed_save_in_the_past")
     s0 = snapshot.snap_project(p)
     raw0 = raw_link_tables(p)
     data = p.read()
